@@ -162,8 +162,11 @@ pub fn run(cfg: &Cfg, log: &mut Log) {
                 log.count("designated_pairs", 1);
                 log.set("mutant_kinds_exercised", k);
             }
-            if !same || designated.is_some() {
+            // non-trivial pairs: near misses (a designated mutant pair, structural twins, or two
+            // types with the same outermost constructor / user type name)
+            if designated.is_some() || same || cname(&t.ty) == cname(&u.ty) {
                 log.distinct(model::rng::fnv(t.name) ^ model::rng::fnv(u.name).rotate_left(17));
+                log.count("near_miss_pairs", 1);
             }
             if !same && t.hashes == u.hashes {
                 // the header check will accept the file: this pair is the witness
